@@ -19,12 +19,13 @@ import tempfile
 
 from sexp import Sym
 
+from props import _c29x
 from props._slicing_util import canon_slice, compositions, random_chunks, unsym
 
 PROP = "C29"
 READY = True
 DRIVER = "dm_slicing"
-LEAN_MODULES = ["DaskModel.Props.C29"]
+LEAN_MODULES = ["DaskModel.Props.C29", "DaskModel.Props.C29xNpy"]
 CASE_TIMEOUT_S = 30
 LEVEL_TEXT = (
     "Lean 4 theorems (no size bound) over transliterations of slices_from_chunks, optimization.fuse_slice and the "
@@ -34,10 +35,15 @@ LEVEL_TEXT = (
     "P[:len(source)] (store_region_den, store_complete). N-d: a target position lies in target[region][:shape] on "
     "every axis iff some block writes it (store_nd_cover) and then exactly one block does (store_nd_exactly_once) — "
     "hence the stored values do not depend on write order, lock or scheduler. to_npy_stack keeps the chunks of the "
-    "stacking axis and the extents of the others. Validated end to end, not proved: the graph plumbing of store "
+    "stacking axis and the extents of the others; its np.save tasks put block (0,..,i,..,0) of the rechunked array into "
+    "file i, from_npy_stack pairs exactly that key with file i, and for every chunk tuple, stacking axis, prior content "
+    "of the directory (stale files) and execution order of the saves every block of the loaded array is the block of "
+    "the rechunked array with the same key (npy_stack_roundtrip, Props/C29xNpy; the tasks of both real graphs are "
+    "diffed against the model). Validated end to end, not proved: the graph plumbing of store "
     "(layer names per source/target-identity/region, targets > 1 MB wrapped in delayed, compute=False stores computed "
     "together later, return_stored/load_stored, Delayed targets, one target with several regions), locks and the "
-    "threaded scheduler, np.save/np.load and the file system; negative-step regions raise NotImplementedError."
+    "threaded scheduler, np.save/np.load and the file system, that rechunk keeps the values (C23/C24); negative-step "
+    "regions raise NotImplementedError."
 )
 LEVEL_NOTE = (
     "Trusted: Lean kernel; the hand-written model (diffed against slices_from_chunks, fuse_slice and "
@@ -50,6 +56,8 @@ ASSUMPTIONS = [
     "target[index] = block with a tuple of positive-step slices writes the per-axis product of the selected positions",
     "a target's positions not named by any write keep their value",
     "np.save / np.load round-trip an array",
+    "x.rechunk(chunks) has the same values as x (C23/C24); '%d.npy' % i is injective in i; core.flatten(x.__dask_keys__()) "
+    "is itertools.product order (diffed on every run of section npyplan)",
 ]
 TRUSTED = ["NumPy basic-slice assignment on the target", "threading.Lock / SerializableLock (see C53)"]
 
@@ -453,6 +461,7 @@ def case_npy(ctx, inp):
 
 
 CASES = {"sfc": case_sfc, "fuse": case_fuse, "lsc": case_lsc, "store": case_store, "bigstore": case_bigstore, "npy": case_npy}
+CASES.update(_c29x.CASES)      # extension round: npyplan
 
 
 # --------------------------------------------------------------------------------------
@@ -653,3 +662,5 @@ def generate(ctx):
         chunks = [list(random_chunks(rng, rng.randint(1, 5))) for _ in range(nd)]
         yield "npy", {"chunks": chunks, "axis": rng.randrange(nd), "dtype": rng.choice(["int64", "float64", "int8"]),
                       "mmap": rng.choice(["r", None]), "fresh_dir": rng.random() < 0.5}
+    # extension round: file plumbing of to_npy_stack / from_npy_stack (appended last: earlier rng streams unchanged)
+    yield from _c29x.generate(ctx)
